@@ -2,6 +2,7 @@ package checks
 
 import (
 	"bytes"
+	"context"
 	"crypto/tls"
 	"encoding/binary"
 	"errors"
@@ -189,6 +190,50 @@ func (ch c11) Run(c *core.Ctx) {
 		conn.CloseWrite()
 		conn.WaitClosed()
 	}
+	// Terminate on a server with a terminate hook: over either transport nothing is sent between the
+	// arrival of the Terminate and the hook (the end of the stream - FIN, or close_notify and FIN - comes
+	// after the hook, as it does in plaintext)
+	if c.Begin(930000) {
+		hook := wire.TerminateConn(func(ctx context.Context) error {
+			cn := hs.ConnOf(ctx)
+			cn.CB("term-hook", cn.WOff())
+			return nil
+		})
+		envHookTLS := hs.Start(hs.Parse, wire.TLSConfig(hs.ServerTLS()), hook)
+		envHookPlain := hs.Start(hs.Parse, hook)
+		prog := &hs.Prog{Stmts: []*hs.Stmt{{ID: "t", Cols: textCols(1), Ops: []hs.Op{{K: "row", Vals: []any{"v"}}, {K: "complete", Tag: "SELECT 1"}}}}}
+		for v, ver := range []uint16{0, tls.VersionTLS12, tls.VersionTLS13} {
+			sess := &hs.Sess{Default: func(string) *hs.Prog { return prog }}
+			var conn *tr.Conn
+			in := append(pg.Startup([][2]string{{"user", "u"}}), pg.Query("t")...)
+			if ver == 0 {
+				conn = envHookPlain.Dial(sess)
+				conn.Send(in)
+				conn.Quiesce()
+			} else {
+				t, reply, err := c11upgrade(envHookTLS, sess, nil, false, ver)
+				if err != nil {
+					c.Violate("upgrade", "TLS upgrade failed", fmt.Sprintf("reply %q: %v", reply, err), nil)
+					continue
+				}
+				conn = t.conn
+				t.step(in)
+				defer t.tc.Close()
+				before := conn.WOff()
+				t.tc.Write(pg.Terminate())
+				conn.WaitClosed()
+				ch.termOrder(c, conn, before, fmt.Sprintf("TLS %x", ver))
+				continue
+			}
+			before := conn.WOff()
+			conn.Send(pg.Terminate())
+			conn.WaitClosed()
+			ch.termOrder(c, conn, before, "plaintext")
+			_ = v
+		}
+		envHookTLS.Stop()
+		envHookPlain.Stop()
+	}
 	// many clients that get their 'S' and then fail the handshake (hang up, send something that is no
 	// ClientHello): whatever they leave behind, the next SSLRequest is answered and upgraded as ever
 	if c.Begin(920000) {
@@ -318,6 +363,24 @@ func (ch c11) Run(c *core.Ctx) {
 }
 
 // rawChecks runs the wire-tap monitors on a finished TLS connection.
+func (ch c11) termOrder(c *core.Ctx, conn *tr.Conn, before int, what string) {
+	hooks, at := 0, -1
+	for _, e := range conn.Events() {
+		if e.Kind == "cb" && e.Name == "term-hook" {
+			hooks++
+			at = e.Data.(int)
+		}
+	}
+	c.Count("terminate_hook_orderings_compared", 1)
+	c.Eval("terminate hook ordering "+what, true)
+	switch {
+	case hooks != 1:
+		c.Violate("terminate-order", "terminate hook not invoked exactly once for a Terminate message ("+what+")", fmt.Sprintf("%d invocations", hooks), nil)
+	case at != before:
+		c.Violate("tls-differs", "bytes are sent between the arrival of Terminate and the terminate hook, which plaintext never does", fmt.Sprintf("%s: %d raw bytes written after the last reply and before the hook was entered (%d in all after the hook)", what, at-before, conn.WOff()-at), map[string]any{"transport": what})
+	}
+}
+
 func (ch c11) rawChecks(c *core.Ctx, t *c11tls, canaries [][]byte, cs any, what string) bool {
 	raw := t.conn.Out()
 	if len(raw) == 0 || raw[0] != 'S' {
